@@ -1074,6 +1074,7 @@ var typeExprs = []string{
 	"Object", "Object[{name=>'A',attributes=>{a=>Integer}}]", "Object[{name=>'A',attributes=>{a=>String}}]", "Object[{name=>'B',attributes=>{a=>Integer}}]",
 	"TypeSet", "Deferred",
 	"SemVer['1.x']", "SemVer['2.x']", "SemVer['>=1.0.0 <2.0.0']", "SemVer['1.2.3']",
+	"Callable[Unit,String]", "Callable[String,1,1]", "Callable[String,Unit]", "Callable[Tuple[Unit]]", "Callable[Tuple]", "Callable[0,0]", "Callable[[String],Integer]", "Callable[String,Callable]",
 	"Runtime['', 'x']", "Runtime['', 'y']", "Runtime['ruby', 'x']", "Runtime['ruby', 'y']", "Runtime['ruby', 'x', Regexp[/y/]]", "Runtime['ruby', 'x', Regexp[/z/]]", "Runtime['ruby']",
 }
 
